@@ -654,7 +654,7 @@ def write_instance_vcf(inst, path, extra_hom=True):
     if extra_hom:
         for p in list(inst["positions"]):
             q = p + 1
-            if q not in used and (q + 1) not in used and p % 3 == 0:
+            if q not in used and (q + 1) not in used and p % 3 != 1:
                 allpos.append(q)
                 used.add(q)
     allpos.sort()
@@ -671,9 +671,16 @@ def write_instance_vcf(inst, path, extra_hom=True):
             else:
                 call = "/".join(map(str, g)) + ":."
         else:
-            g = [p % 2] * k
+            # records between the phasable variants: homozygous, missing, or partially missing (listed unsorted)
+            kind = p % 4
+            if kind <= 1:
+                g = [p % 2] * k
+            elif kind == 2:
+                g = [-1] * k
+            else:
+                g = [1, -1] + [0] * (k - 2)
             na = 1
-            call = "/".join(map(str, g)) + ":."
+            call = "/".join("." if a < 0 else str(a) for a in g) + ":."
         lines.append(f"chrA\t{p + 1}\t.\tA\t{','.join(alts[:na])}\t.\tPASS\t.\tGT:PS\t{call}")
         recs.append((p, list(g), pmap[p][0] if (p in gmap and pmap.get(p)) else None))
     with open(path, "w") as f:
